@@ -5,7 +5,7 @@ From Coq Require Import List ZArith.
 From Coq Require Import Permutation Sorting.Sorted.
 From RtoscV Require Import Match.PatSpec Match.MatchModel Osc.OscModel Osc.OscReadProofs Ports.MetaModel Ports.NameModel Ports.PathModel
                            Ports.PathProofs Ports.SearchProofs Ports.PathRegress Ports.WalkModel Ports.WalkProofs Ports.LookupProofs
-                           Ports.EnumProofs Ports.DispatchWalk Ports.LookupGen.
+                           Ports.EnumProofs Ports.DispatchWalk Ports.LookupGen Ports.NamesModel Ports.NamesOk.
 Import ListNotations.
 Local Open Scope Z_scope.
 
@@ -167,3 +167,25 @@ Proof. exact walk_lookup. Qed.
 Theorem C18_lookup_nonvacuous : Forall lok ex_d /\ lookup_disjoint ex_d /\
   apropos (map render_port ex_d) [47; 97; 49; 49; 47; 99; 49; 47; 120] = AFound [0%nat; 0%nat].
 Proof. exact ex_d_lok. Qed.
+
+(* The lookup clause with a DECIDABLE hypothesis: names_ok root = true
+   (coq/Ports/NamesModel.v; evaluated on every generated tree by the tie) -
+   names of the documented shape, literal text without digits, and no key of a
+   port - its path part with each '#N' replaced by '#' - a prefix of a sibling's
+   key: "no sibling's name is a prefix of another's".  lok / lookup_disjoint
+   follow (C09_names_ok_sound).  The digit-alias witness above is exactly what
+   "literal text without digits" excludes. *)
+Theorem C18_lookup : forall root id a ty,
+  names_ok root = true ->
+  forall out b, walk None (map render_port root) [] = WOk out b ->
+  In (id, a) out -> leaf_admits root id ty ->
+  apropos (map render_port root) a = AFound id.
+Proof. exact walk_lookup_names. Qed.
+
+(* observation, outside the quantifier (names are non-empty): an empty port name
+   makes the unique-prefix pass read one byte before the name *)
+Theorem C18_empty_name_observation :
+  path_search [Port [] None None; Port [98] None None] [] [] SortedUniquePrefix = SOob /\
+  path_search [Port [] None None; Port [98] None None] [] [] Sorted =
+    SOk [{| e_name := Some []; e_data := None; e_len := 0 |}; {| e_name := Some [98]; e_data := None; e_len := 0 |}].
+Proof. exact empty_name_reads_before. Qed.
